@@ -21,7 +21,9 @@ STRATA = [
     ("single-circuit", 250, 4000),
     ("single-no-overlap", 250, 5000),
     ("single-cumulative", 300, 6000),
+    ("single-cumulative-wide", 60, 1200),
     ("conjunction", 500, 10000),
+    ("planted-unique", 300, 6000),
     ("anonymous", 200, 4000),
 ]
 REQUIRED_EVENTS = {"any": ["enc.cnf-captured", "enc.modelset-compared", "enc.exactly-one-checked", "enc.second-encoding-compared"]}
@@ -83,6 +85,10 @@ def gen(stratum, rng, tier):
         du = [rng.randint(0, 4) for _ in range(n)]
         de = [rng.randint(0, 3) for _ in range(n)]
         spec = {"vars": vars_, "cons": [("cumulative", list(range(n)), du, de, rng.randint(1, 5))]}
+    elif stratum == "single-cumulative-wide":
+        spec = cpgen.gen_spec("cumulative-wide", rng)
+    elif stratum == "planted-unique":
+        spec = cpgen.gen_spec("planted-unique", rng)
     elif stratum == "conjunction":
         spec = cpgen.gen_spec(rng.choice(["mixed", "supported", "grammar", "sums"]), rng)
         for c in spec["cons"]:
